@@ -54,12 +54,54 @@ def dim_z3(d):
     return z3.IntVal(d) if isinstance(d, int) else d
 
 
+# In-place updates (t[idx] = v, t[mask] = c, havoc) give a tensor object a new index function.  Tensors derived from it
+# EARLIER (their index functions call `t.fn` lazily) must keep reading the value it had when they were created: every
+# index function is stamped with its creation time, evaluating it clamps the "current time" to that stamp, and `t.fn`
+# returns the version of t that was current at that time.
+_CLOCK = [0]
+_NOW = [float("inf")]
+import os as _os
+_NOVERSION = bool(_os.environ.get("PYVC_NO_TENSOR_VERSIONS"))
+
+
 class STensor(Symbolic):
     def __init__(self, shape, fn, dtype="real", name=None):
         self.shape_ = tuple(shape)
+        self._versions = []
         self.fn = fn
         self.dtype = dtype     # 'real' | 'bool' | 'int'
         self.name = name or f"t{next(_counter)}"
+
+    @staticmethod
+    def _stamped(fn, born):
+        if getattr(fn, "_born", None) is not None and fn._born <= born:
+            return fn              # already clamps to an earlier (or the same) time
+
+        def at_time(idx):
+            prev = _NOW[0]
+            if born < prev:
+                _NOW[0] = born
+            try:
+                return fn(idx)
+            finally:
+                _NOW[0] = prev
+        at_time._born = born
+        return at_time
+
+    @property
+    def fn(self):
+        now = _NOW[0] if not _NOVERSION else float("inf")
+        for tm, f in reversed(self._versions):
+            if tm <= now:
+                return f
+        return self._versions[0][1]
+
+    @fn.setter
+    def fn(self, new):
+        if self._versions:
+            _CLOCK[0] += 1         # an in-place update: later than everything created so far
+        born = _CLOCK[0]
+        self._versions.append((born, STensor._stamped(new, born)))
 
     # ------------------------------------------------------------------ construction helpers
     @staticmethod
@@ -534,10 +576,19 @@ def tensor_setitem(it, t: STensor, idx, v, node=None):
         raise OutOfSubset("None in tensor store index", node)
     conds = []   # per dim: lambda index -> Bool (selected?) and mapping to value index
     fixed = []
-    for d, i in zip(t.shape_, items):
+    ranges = {}  # source dim -> (lo, hi) of a partial slice lo:hi
+    for kdim, (d, i) in enumerate(zip(t.shape_, items)):
         if isinstance(i, slice):
-            if i.start is not None or i.stop is not None or i.step is not None:
-                raise OutOfSubset("partial slice in tensor store", node)
+            if i.step is not None:
+                raise OutOfSubset("slice step in tensor store", node)
+            if i.start is not None or i.stop is not None:
+                lo = to_z3(i.start, "int") if i.start is not None else z3.IntVal(0)
+                hi = to_z3(i.stop, "int") if i.stop is not None else dim_z3(d)
+                # safety obligation: the slice lies inside the dimension (python would clamp, torch then refuses a value of
+                # another length); negative bounds are outside the subset
+                it.cx.prove("tensor store: slice bounds inside the dimension", z3.And(0 <= lo, lo <= hi, hi <= dim_z3(d)),
+                            where=f"line {getattr(node, 'lineno', '?')}")
+                ranges[kdim] = (z3.simplify(lo), z3.simplify(hi))
             fixed.append(None)
         else:
             iz = to_z3(i, "int")
@@ -549,13 +600,14 @@ def tensor_setitem(it, t: STensor, idx, v, node=None):
     if vt is None:
         raise OutOfSubset("tensor store of a non-tensor value", node)
     free_dims = [k for k, f in enumerate(fixed) if f is None]
-    sub_shape = tuple(t.shape_[k] for k in free_dims)
+    sub_shape = tuple((simplify_dim(it.cx, ranges[k][1] - ranges[k][0]) if k in ranges else t.shape_[k]) for k in free_dims)
     _, pa, pb = broadcast_shapes(it, sub_shape, vt.shape_, node)
 
     def newfn(i):
         conds = [i[k] == z3.simplify(f) for k, f in enumerate(fixed) if f is not None]
+        conds += [z3.And(ranges[k][0] <= i[k], i[k] < ranges[k][1]) for k in free_dims if k in ranges]
         sel = (conds[0] if len(conds) == 1 else z3.And(*conds)) if conds else z3.BoolVal(True)
-        sub = tuple(i[k] for k in free_dims)
+        sub = tuple((i[k] - ranges[k][0] if k in ranges else i[k]) for k in free_dims)
         val = vt.elem_real(_op_idx(sub, vt.shape_, pb)) if t.dtype == "real" else vt.fn(_op_idx(sub, vt.shape_, pb))
         return z3.If(sel, val, old(i))
     t.fn = newfn
@@ -1586,6 +1638,22 @@ def m_isnan(it, t):
     t = as_tensor(it, t)
     # real mode: tensors hold real numbers, NaN is represented by the explicit predicate isnan(x)
     return unary(t.as_num(), lambda e: F_ISNAN(e), "bool")
+
+
+F_ISFINITE = ufun("isfinite", R, B)
+
+
+@model(torch.isfinite)
+def m_isfinite(it, t):
+    # real mode: finiteness of an entry is the explicit (uninterpreted) predicate isfinite(x), like isnan(x)
+    t = as_tensor(it, t)
+    return unary(t.as_num(), lambda e: F_ISFINITE(e), "bool")
+
+
+@model(torch.isinf)
+def m_isinf(it, t):
+    t = as_tensor(it, t)
+    return unary(t.as_num(), lambda e: z3.And(z3.Not(F_ISFINITE(e)), z3.Not(F_ISNAN(e))), "bool")
 
 
 @model(torch.index_put)
